@@ -23,6 +23,7 @@ func propC19() *Property {
 			{ID: "C19.R2", Title: "every colour is converted by hexToAnsi with its error checked", Floor: 7, Run: c19R2},
 			{ID: "C19.R3", Title: "every consumer assumption about a config value is validated", Floor: 15, Run: c19R3},
 			{ID: "C19.R4", Title: "arithmetic on validated settings cannot overflow", Floor: 0, Run: c19R4},
+			{ID: "C19.R5", Title: "an accepted configuration cannot crash the feed it names: source k of the feed is input k, for any number of inputs (same instances as C11.R8)", Floor: 1, Run: c11R8},
 		},
 	}
 }
